@@ -35,6 +35,16 @@ ALLOWED_HANDLERS = {
     ('_load_parquet_pandas_metadata', ('FileNotFoundError',)): 'falls back to the metadata of the first piece',
     ('_perform_read_parquet_dask', ('ImportError', 'RuntimeError')): 'feature probe for dask pyarrow_strings_enabled',
 }
+def _only_optional_metadata_read(P, f, t):
+    """The body of `try` t consists of calls to _read_metadata only (at least one), and nothing else that touches storage."""
+    try:
+        rm = P.func('spatialpandas.io.parquet', '_read_metadata')
+    except Exception:
+        return False
+    calls = [c for s_ in t.body for c in ast.walk(s_) if isinstance(c, ast.Call)]
+    return bool(calls) and all(astq.is_call_to(P, f, c, rm) for c in calls)
+
+
 FORBIDDEN_EXT = ('os.remove', 'os.unlink', 'os.rename', 'os.replace', 'os.makedirs', 'os.mkdir', 'os.rmdir', 'os.listdir', 'shutil.', 'builtins.open',
                  'os.path.exists', 'os.path.isdir', 'os.path.isfile', 'glob.glob')
 
@@ -71,6 +81,9 @@ def run(P, R, tier):
                     R.ok('C19.a', f, h, f'handler for {names} re-raises', construct=f'except {", ".join(names)}')
                 elif (f.name, names) in ALLOWED_HANDLERS:
                     R.ok('C19.a', f, h, f'enumerated optional read: {ALLOWED_HANDLERS[(f.name, names)]}', construct=f'except {", ".join(names)}', nontrivial=False)
+                elif names == ('FileNotFoundError',) and _only_optional_metadata_read(P, f, t):
+                    # the same optional read as the enumerated one, wherever it lives: the guarded block does nothing but read the (optional) metadata file
+                    R.ok('C19.a', f, h, 'optional read: the guarded block only reads the metadata file, whose absence means "no stored bounds"', construct=f'except {", ".join(names)}', nontrivial=False)
                 else:
                     R.bad('C19.a', f, h, f'handler for {names} in {f.qualname} can complete without re-raising: a filesystem error is swallowed and the run continues '
                                          f'with missing data', construct=f'except {", ".join(names)}: {norm(h.body[0]) if h.body else ""}')
